@@ -12,6 +12,12 @@ DESCR = {
                          "generated/DriverGen.v; the refinement generated code -> model (proofs/DriverTie.v, for all arguments) is "
                          "compiled with the property's theorem file; one case per translated function"),
     "translate_core": ("G:tracker source translator", "see core_units.g_unit"),
+    "translate_init": ("G:initializer source translator",
+                       "ast translation (harness/pytrans.py, fail-closed) of Initializer.__init__, set_pos, _init_warm_start, _init_random_search, "
+                       "_fill_rest_random and add_n_random_init_pos of init_positions.py into generated/InitGen.v (for loops, the nested "
+                       "`while True ... break` rejection loop, dictionary membership of `initialize`); _init_grid_search / _init_vertices are "
+                       "Section variables pinned by digest; proofs/InitTie.v proves _init_warm_start equal to Init.init_warm_start, set_pos to be "
+                       "Init.assemble of the parts, and C10's theorem for the generated code"),
     "translate_coreopt": ("G:core-moves source translator",
                           "ast translation (harness/pytrans.py, fail-closed) of CoreOptimizer.move_random, conv2pos, move_climb and the "
                           "random_iteration wrapper of core_optimizer.py into generated/CoreGen.v: loops, the constraint test before every return, "
@@ -65,7 +71,7 @@ def g_unit(ctx, modname):
     return u
 
 
-ALL_TRANSLATORS = ["translate_core", "translate_driver", "translate_grid", "translate_search", "translate_memory", "translate_results", "translate_coreopt"]
+ALL_TRANSLATORS = ["translate_core", "translate_driver", "translate_grid", "translate_search", "translate_memory", "translate_results", "translate_coreopt", "translate_init"]
 
 
 def refresh_all(ctx):
